@@ -16,8 +16,9 @@ Log == JsonDeserialize(IOEnv.TRACE_FILE)
 VARIABLES l,      \* next event to consume
           cur,    \* Cfg event of the scan in progress (or NoPt)
           reg,    \* region of the walk ("" before the first point)
-          pend    \* pending Jump event (or NoPt): the next Pt must land in an allowed region
-vars == <<l, cur, reg, pend>>
+          pend,   \* pending Jump event (or NoPt): the next Pt must land in an allowed region
+          prev    \* previous point of the walk (or NoPt)
+vars == <<l, cur, reg, pend, prev>>
 
 Report(e, cs) == IF cs = {} THEN TRUE
                  ELSE PrintT(ToJson([tid |-> e.tid, i |-> l, failed |-> cs]))
@@ -25,12 +26,12 @@ Report(e, cs) == IF cs = {} THEN TRUE
 Ev == Log[l]
 IsEvent(k) == l <= Len(Log) /\ Ev.k = k
 
-Init == l = 1 /\ cur = NoPt /\ reg = "" /\ pend = NoPt
+Init == l = 1 /\ cur = NoPt /\ reg = "" /\ pend = NoPt /\ prev = NoPt
 
 Start ==
   /\ IsEvent("Cfg") /\ cur = NoPt
   /\ Report(Ev, Chk("CFG.catalogue", CfgOK(Ev)))
-  /\ cur' = Ev /\ reg' = "" /\ pend' = NoPt /\ l' = l + 1
+  /\ cur' = Ev /\ reg' = "" /\ pend' = NoPt /\ prev' = NoPt /\ l' = l + 1
 
 (* a point: first of the scan, same region, continuous boundary, or landing after a jump *)
 Point ==
@@ -43,20 +44,30 @@ Point ==
                ELSE IF reg # "" /\ e.reg # reg
                THEN Chk("GRAM.cont", GrammarOK(cur, reg, "cont", e.reg))
                ELSE {})
-     IN Report(e, structural \cup PtClauses(cur, e))
-  /\ reg' = Ev.reg /\ pend' = NoPt /\ l' = l + 1 /\ UNCHANGED cur
+     IN Report(e, structural \cup PtClauses(cur, e) \cup StepClauses(cur, prev, e))
+  /\ reg' = Ev.reg /\ pend' = NoPt /\ prev' = Ev /\ l' = l + 1 /\ UNCHANGED cur
 
 Jump ==
   /\ IsEvent("Jump") /\ cur # NoPt /\ pend = NoPt /\ reg # ""
   /\ Report(Ev, JumpClauses(cur, Ev))
-  /\ pend' = Ev /\ l' = l + 1 /\ UNCHANGED <<cur, reg>>
+  /\ pend' = Ev /\ l' = l + 1 /\ UNCHANGED <<cur, reg, prev>>
+
+(* integral budget / bounds events: attached to the scan, do not move the walk *)
+Integral ==
+  /\ IsEvent("Int") /\ cur # NoPt
+  /\ Report(Ev, IntClauses(cur, Ev))
+  /\ l' = l + 1 /\ UNCHANGED <<cur, reg, pend, prev>>
+Bounds ==
+  /\ IsEvent("Bnd") /\ cur # NoPt
+  /\ Report(Ev, BndClauses(cur, Ev))
+  /\ l' = l + 1 /\ UNCHANGED <<cur, reg, pend, prev>>
 
 Finish ==
   /\ IsEvent("End") /\ cur # NoPt
-  /\ Report(Ev, Chk("GRAM.dangling-jump", pend = NoPt))
-  /\ cur' = NoPt /\ reg' = "" /\ pend' = NoPt /\ l' = l + 1
+  /\ Report(Ev, Chk("GRAM.dangling-jump", pend = NoPt) \cup Chk("GRAM.incomplete", FinalOK(cur, reg)))
+  /\ cur' = NoPt /\ reg' = "" /\ pend' = NoPt /\ prev' = NoPt /\ l' = l + 1
 
-Next == Start \/ Point \/ Jump \/ Finish
+Next == Start \/ Point \/ Jump \/ Integral \/ Bounds \/ Finish
 Spec == Init /\ [][Next]_vars
 
 (* the whole trace was consumed: one state per event plus the initial state *)
